@@ -572,6 +572,9 @@ func (g *G) encapsed(depth int) *Node {
 }
 
 func (g *G) shellExec(depth int) *Node {
+	if g.R.Chance(1, 10) && !g.O.Formatter {
+		return &Node{Kind: "ExprShellExec", Kids: []Kid{list("Parts", nil)}, Parts: parts(t("`"), tn("`")), Prec: 100}
+	}
 	if g.R.Chance(1, 4) {
 		p := &Node{Kind: "ScalarEncapsedStringPart", Val: "ls -l", HasVal: true, Parts: []interface{}{tn("ls -l")}}
 		return &Node{Kind: "ExprShellExec", Kids: []Kid{list("Parts", []*Node{p})}, Parts: parts(t("`"), p, tn("`")), Prec: 100}
@@ -1013,18 +1016,38 @@ func (g *G) newExpr(depth int) *Node {
 	case 0:
 		cls = g.simpleVar()
 	case 5:
-		// class reference chains: new $a->b, new $a->b[0], new $a::$b, new $a[0]->c
+		// class reference chains: new $a->b, new $a->b[0], new $a{0}, new $a->{$e}, new $a::$b, new A::$b, new $a[0]->c
 		cls = g.simpleVar()
-		for i, n := 0, g.R.Range(1, 3); i < n; i++ {
+		nameBase := false
+		if g.R.Chance(1, 4) {
+			// new A::$b ...: the chain starts at a static property of a named class
+			cn := g.name(true)
+			if g.R.Chance(1, 3) {
+				cn = g.identifier(g.R.Pick("static", "Static"))
+			}
+			pv := g.simpleVarPlain()
+			cls = &Node{Kind: "ExprStaticPropertyFetch", Kids: []Kid{one("Class", cn), one("Prop", pv)}, Parts: parts(cn, t("::"), pv), Prec: 100, Flags: FKnownDiff}
+			nameBase = true
+		}
+		links := g.R.Range(1, 3) - b2i(nameBase)
+		if nameBase && g.O.Fam == 5 {
+			links = 0 // the PHP 5 grammar attaches what follows a static member to the member (A::$b[0] is A::${b[0]})
+		}
+		for i, n := 0, links; i < n; i++ {
 			switch g.R.Intn(3) {
 			case 0:
+				if g.R.Chance(1, 4) && !g.O.Formatter {
+					e := g.exprTop(depth + 2)
+					cls = &Node{Kind: "ExprPropertyFetch", Kids: []Kid{one("Var", cls), one("Prop", e)}, Parts: parts(cls, t("->"), t("{"), e, t("}")), Prec: 100}
+					continue
+				}
 				m := g.identifier(g.ident())
 				cls = &Node{Kind: "ExprPropertyFetch", Kids: []Kid{one("Var", cls), one("Prop", m)}, Parts: parts(cls, t("->"), m), Prec: 100}
 			case 1:
 				d := g.exprTop(depth + 2)
-				cls = &Node{Kind: "ExprArrayDimFetch", Kids: []Kid{one("Var", cls), one("Dim", d)}, Parts: parts(cls, t("["), d, t("]")), Prec: 100}
+				cls = g.dim(cls, d, true)
 			default:
-				if i == 0 && (g.O.Fam == 7 || n == 1) {
+				if i == 0 && !nameBase && (g.O.Fam == 7 || n == 1) {
 					pv := g.simpleVarPlain()
 					cls = &Node{Kind: "ExprStaticPropertyFetch", Kids: []Kid{one("Class", cls), one("Prop", pv)}, Parts: parts(cls, t("::"), pv), Prec: 100, Flags: FKnownDiff}
 				}
@@ -1043,12 +1066,43 @@ func (g *G) newExpr(depth int) *Node {
 	return &Node{Kind: "ExprNew", Kids: []Kid{one("Class", cls), list("Args", as)}, Parts: parts(g.kw("new"), cls, ps), Prec: precNew, Prefix: true}
 }
 
+// ReservedNonModifiers: the words PHP 7 admits as identifiers (method, class-constant and trait-alias names,
+// names after '::'); SemiReserved adds the member modifiers. After '->' every label is a name in both families.
+var ReservedNonModifiers = []string{"include", "include_once", "eval", "require", "require_once", "or", "xor", "and",
+	"instanceof", "new", "clone", "exit", "die", "if", "elseif", "else", "endif", "echo", "do", "while", "endwhile",
+	"for", "endfor", "foreach", "endforeach", "declare", "enddeclare", "as", "try", "catch", "finally",
+	"throw", "use", "insteadof", "global", "var", "unset", "isset", "empty", "continue", "goto",
+	"function", "const", "return", "print", "yield", "list", "switch", "endswitch", "case", "default", "break",
+	"array", "callable", "extends", "implements", "namespace", "trait", "interface", "class",
+	"__CLASS__", "__TRAIT__", "__FUNCTION__", "__METHOD__", "__LINE__", "__FILE__", "__DIR__", "__NAMESPACE__", "fn"}
+
+var MemberModifiers = []string{"static", "abstract", "final", "private", "protected", "public"}
+
+// reservedWord picks a reserved word in PRNG letter case (the value of the identifier is the spelling used).
+func (g *G) reservedWord(modifiersToo bool) string {
+	pool := ReservedNonModifiers
+	if modifiersToo && g.R.Chance(1, 8) {
+		pool = MemberModifiers
+	}
+	w := pool[g.R.Intn(len(pool))]
+	switch g.R.Intn(4) {
+	case 0:
+		w = strings.ToUpper(w)
+	case 1:
+		w = strings.ToUpper(w[:1]) + w[1:]
+	}
+	return w
+}
+
 // memberName: identifier after -> or ::, possibly a reserved word.
 func (g *G) memberName() (*Node, int) { return g.memberNameFor(false) }
 
 func (g *G) memberNameFor(static bool) (*Node, int) {
 	if g.R.Chance(1, 6) && (!static || g.php7()) {
-		w := g.R.Pick("list", "class", "array", "function", "new", "static", "print", "foreach", "namespace", "use", "or", "include", "exit", "isset", "fn")
+		w := g.reservedWord(true)
+		if strings.EqualFold(w, "class") && static {
+			w = "list" // A::class is the class-name constant, not a member
+		}
 		id := g.identifier(w)
 		id.Parts = []interface{}{tg(w, GapBlank)}
 		return id, GapBlank
@@ -1068,11 +1122,14 @@ func (g *G) varExpr(depth int, call bool) *Node {
 		defer func() { g.dollarFirst = save }()
 	}
 	switch k := kk; {
-	case k == 0 && !g.O.Common:
-		// $$a
+	case k == 0:
+		// $$a, $$$a
 		in := g.simpleVar()
 		base = &Node{Kind: "ExprVariable", Kids: []Kid{one("Name", in)}, Parts: parts(t("$"), in), Prec: 100}
-		if g.O.Fam == 5 {
+		for g.R.Chance(1, 4) {
+			base = &Node{Kind: "ExprVariable", Kids: []Kid{one("Name", base)}, Parts: parts(t("$"), base), Prec: 100}
+		}
+		if g.O.Fam == 5 || g.O.Common {
 			return base // PHP 5 applies the extra '$' to the whole reference that follows ($$a[0] is ${$a[0]})
 		}
 	case k == 1 && !g.O.Formatter:
@@ -1081,7 +1138,7 @@ func (g *G) varExpr(depth int, call bool) *Node {
 	case k == 2 && depth < g.O.MaxDepth:
 		// static property A::$b
 		cls := g.classRef(depth)
-		base = &Node{Kind: "ExprStaticPropertyFetch", Kids: []Kid{one("Class", cls), one("Prop", g.simpleVarPlain())}, Prec: 100}
+		base = &Node{Kind: "ExprStaticPropertyFetch", Kids: []Kid{one("Class", cls), one("Prop", g.indirectVar(2))}, Prec: 100}
 		base.Parts = parts(cls, t("::"), base.Kids[1].N)
 		if g.O.Common || !g.php7() {
 			return base // dimensions/calls after a static member regroup under uniform variable syntax
@@ -1090,8 +1147,10 @@ func (g *G) varExpr(depth int, call bool) *Node {
 		// function call
 		var fn *Node
 		switch g.R.Intn(8) {
-		case 0, 1:
+		case 0:
 			fn = g.simpleVar()
+		case 1:
+			fn = g.indirectVar(2) // $f(), $$f(), $$$f()
 		case 2:
 			// $a[0]() / $a->b[0](): the callee is a variable expression ending in a dimension
 			var v *Node
@@ -1124,8 +1183,8 @@ func (g *G) varExpr(depth int, call bool) *Node {
 			e := g.exprTop(depth + 1)
 			base = &Node{Kind: "ExprStaticCall", Kids: []Kid{one("Class", cls), one("Call", e), list("Args", as)}, Parts: parts(cls, t("::"), t("{"), e, t("}"), ps), Prec: 100}
 		case sk == 1:
-			// A::$m()
-			e := g.simpleVarPlain()
+			// A::$m(), A::$$m()
+			e := g.indirectVar(2)
 			base = &Node{Kind: "ExprStaticCall", Kids: []Kid{one("Class", cls), one("Call", e), list("Args", as)}, Parts: parts(cls, t("::"), e, ps), Prec: 100}
 		default:
 			m, _ := g.memberNameFor(true)
@@ -1165,8 +1224,19 @@ func (g *G) varExpr(depth int, call bool) *Node {
 				continue
 			}
 			d := g.exprTop(depth + 1)
-			base = &Node{Kind: "ExprArrayDimFetch", Kids: []Kid{one("Var", base), one("Dim", d)}, Parts: parts(base, t("["), d, t("]")), Prec: 100}
+			// $a{0}: PHP 5 has the brace form on variables and properties only, PHP 7 on everything dereferencable
+			base = g.dim(base, d, g.php7() || !hasCall(base))
 		case 1: // ->prop
+			if g.R.Chance(1, 6) {
+				// ->$p, ->$$p: the property name taken from a variable; PHP 5 binds dimensions that follow to the
+				// name ($o->$p[0] is $o->{$p[0]}), PHP 7 to the fetch: the chain ends here outside PHP 7
+				pv := g.indirectVar(2)
+				base = &Node{Kind: "ExprPropertyFetch", Kids: []Kid{one("Var", base), one("Prop", pv)}, Parts: parts(base, t("->"), pv), Prec: 100}
+				if !g.php7() {
+					i = n
+				}
+				continue
+			}
 			m, _ := g.memberName()
 			base = &Node{Kind: "ExprPropertyFetch", Kids: []Kid{one("Var", base), one("Prop", m)}, Parts: parts(base, t("->"), m), Prec: 100}
 		case 2: // ->method()
@@ -1181,8 +1251,8 @@ func (g *G) varExpr(depth int, call bool) *Node {
 				continue
 			}
 			if g.R.Chance(1, 8) {
-				// ->$name(args)
-				e := g.simpleVarPlain()
+				// ->$name(args), ->$$name(args)
+				e := g.indirectVar(1)
 				base = &Node{Kind: "ExprMethodCall", Kids: []Kid{one("Var", base), one("Method", e), list("Args", as)}, Parts: parts(base, t("->"), e, ps), Prec: 100}
 				continue
 			}
@@ -1207,6 +1277,83 @@ func (g *G) varExpr(depth int, call bool) *Node {
 }
 
 func (g *G) simpleVarPlain() *Node { return g.varNamed("$" + g.ident()) }
+
+// indirectVar: $a, $$a, $$$a ... (levels extra '$' in front of a plain variable): the name of a member or callee
+// taken from a variable (variable).
+func (g *G) indirectVar(maxLevels int) *Node {
+	v := g.simpleVarPlain()
+	for i, n := 0, g.R.Intn(maxLevels+1); i < n; i++ {
+		v = &Node{Kind: "ExprVariable", Kids: []Kid{one("Name", v)}, Parts: parts(t("$"), v), Prec: 100}
+	}
+	return v
+}
+
+// hasCall: a call result somewhere on the spine of a postfix chain.
+func hasCall(n *Node) bool {
+	for n != nil {
+		switch n.Kind {
+		case "ExprFunctionCall", "ExprStaticCall", "ExprMethodCall", "ExprBrackets", "ExprNew":
+			return true
+		}
+		var next *Node
+		for _, k := range n.Kids {
+			if k.Role == "Var" && !k.List {
+				next = k.N
+			}
+		}
+		n = next
+	}
+	return false
+}
+
+// dim wraps base into a dimension fetch, written with brackets or (1 in 6, where the grammar has it) braces.
+func (g *G) dim(base, d *Node, curlyOK bool) *Node {
+	if curlyOK && !g.O.Formatter && g.R.Chance(1, 6) {
+		return &Node{Kind: "ExprArrayDimFetch", Kids: []Kid{one("Var", base), one("Dim", d)}, Parts: parts(base, t("{"), d, t("}")), Prec: 100}
+	}
+	return &Node{Kind: "ExprArrayDimFetch", Kids: []Kid{one("Var", base), one("Dim", d)}, Parts: parts(base, t("["), d, t("]")), Prec: 100}
+}
+
+// scalarDeref: a dimension fetch on a literal or constant — "abc"[0], [1, 2][0], array(1)[0], FOO[0], A::B[0] — with one
+// or two dimensions (both grammars), and PHP 7's calls on a parenthesised expression or a literal: ($f)(1), "f"(1), [$o, 'm']().
+func (g *G) scalarDeref(depth int) *Node {
+	var base *Node
+	k := g.R.Intn(7)
+	if !g.php7() && k >= 5 {
+		k = g.R.Intn(5)
+	}
+	switch k {
+	case 0:
+		base = g.plainString()
+	case 1:
+		base = g.arrayLit(depth + 1)
+	case 2:
+		base = g.constFetch()
+	case 3:
+		cls := g.name(true)
+		base = &Node{Kind: "ExprClassConstFetch", Kids: []Kid{one("Class", cls), one("Const", g.identifier(g.ident()))}, Prec: 100}
+		base.Parts = parts(cls, t("::"), base.Kids[1].N)
+	case 4:
+		base = g.plainString()
+	case 5:
+		fn := g.brackets(g.exprTop(depth + 1))
+		as, ps := g.args(depth)
+		return &Node{Kind: "ExprFunctionCall", Kids: []Kid{one("Function", fn), list("Args", as)}, Parts: parts(fn, ps), Prec: 100, Flags: FPhp7Only}
+	default:
+		var fn *Node
+		if g.R.Bool() {
+			fn = g.plainString()
+		} else {
+			fn = g.arrayLit(depth + 1)
+		}
+		as, ps := g.args(depth)
+		return &Node{Kind: "ExprFunctionCall", Kids: []Kid{one("Function", fn), list("Args", as)}, Parts: parts(fn, ps), Prec: 100, Flags: FPhp7Only}
+	}
+	for i, n := 0, g.R.Range(1, 2); i < n; i++ {
+		base = g.dim(base, g.exprTop(depth+1), false)
+	}
+	return base
+}
 
 func (g *G) arrayItem(depth int, allowSpread bool) *Node {
 	v := g.exprTop(depth + 1)
@@ -1315,13 +1462,15 @@ func (g *G) atom(depth int) *Node {
 			c = g.identifier(g.ident())
 		}
 		if g.php7() && g.R.Chance(1, 6) {
-			c = g.identifier(g.R.Pick("list", "new", "print", "array"))
+			c = g.identifier(g.reservedWord(true))
 		}
 		return &Node{Kind: "ExprClassConstFetch", Kids: []Kid{one("Class", cls), one("Const", c)}, Parts: parts(cls, t("::"), c), Prec: 100}
 	case k == 16 && depth < g.O.MaxDepth:
 		return g.shellExec(depth)
 	case k == 17 && depth < g.O.MaxDepth:
 		return g.brackets(g.exprTop(depth + 1))
+	case k == 18 && depth < g.O.MaxDepth && !g.O.Formatter:
+		return g.scalarDeref(depth)
 	}
 	return g.simpleVar()
 }
